@@ -1,0 +1,87 @@
+//go:build verif
+
+// Contracts for the gowp verifier (/verif): comment-only file, compiled only with -tags verif.
+package rfc3961
+
+//@ func crypto/rfc3961.DES3EncryptData(key, data, e) (iv, ct, err)
+//@   pure
+//@   trusted_frame returned slices are not tracked as fresh; in-place append into spare capacity cannot be excluded
+//@   requires len(data) > 0
+//@   requires tagof(e) == typeid("crypto.Des3CbcSha1Kd")
+//@   ensures err == nil <==> et_encok(tagof(e), len(key), len(data))
+//@   ensures err == nil ==> len(ct) == et_ctlen(tagof(e), len(data))
+//@ func crypto/rfc3961.DES3DecryptData(key, data, e) (pt, err)
+//@   pure
+//@   trusted_frame returned slices are not tracked as fresh; in-place append into spare capacity cannot be excluded
+//@   requires tagof(e) == typeid("crypto.Des3CbcSha1Kd")
+//@   ensures err == nil <==> et_decok(tagof(e), len(key), len(data))
+//@   ensures err == nil ==> len(pt) == len(data)
+//@   ensures err != nil ==> len(pt) == 0
+//@ func crypto/rfc3961.DES3DecryptMessage(key, ciphertext, usage, e) (pt, err)
+//@   pure
+//@   trusted_frame returned slices are not tracked as fresh; in-place append into spare capacity cannot be excluded
+//@   ensures err != nil ==> len(pt) == 0
+//@ func crypto/rfc3961.DES3EncryptMessage(key, message, usage, e) (iv, ct, err)
+//@   pure
+//@   trusted_frame returned slices are not tracked as fresh; in-place append into spare capacity cannot be excluded
+//@ func crypto/rfc3961.VerifyIntegrity(key, ct, pt, usage, e) (ok)
+//@   pure
+//@   trusted_frame returned slices are not tracked as fresh; in-place append into spare capacity cannot be excluded
+//@ func crypto/rfc3961.DeriveRandom(key, usage, e) (r, err)
+//@   pure
+//@   trusted_frame returned slices are not tracked as fresh; in-place append into spare capacity cannot be excluded
+//@   requires len(usage) > 0
+//@   requires et_known(tagof(e))
+//@   ensures err == nil ==> len(r) == et_seedbits(tagof(e)) / 8
+//@   loop 1 invariant 0 <= i && i <= len(out) && len(K) > 0 && et_encok(tagof(e), len(key), len(K))
+//@ func crypto/rfc3961.DeriveKey(protocolKey, usage, e) (k, err)
+//@   pure
+//@   trusted_frame returned slices are not tracked as fresh; in-place append into spare capacity cannot be excluded
+//@   requires len(usage) > 0
+//@   requires et_known(tagof(e))
+//@ func crypto/rfc3961.DES3RandomToKey(b) (k)
+//@   pure
+//@   trusted_frame returned slices are not tracked as fresh; in-place append into spare capacity cannot be excluded
+//@   requires len(b) >= 21
+//@   ensures len(k) == 24
+//@ func crypto/rfc3961.DES3StringToKey(secret, salt, e) (k, err)
+//@   pure
+//@   requires len(secret) + len(salt) > 0
+//@   trusted_frame returned slices are not tracked as fresh; in-place append into spare capacity cannot be excluded
+//@   requires tagof(e) == typeid("crypto.Des3CbcSha1Kd")
+//@ func crypto/rfc3961.PseudoRandom(key, b, e) (r, err)
+//@   pure
+//@   trusted_frame returned slices are not tracked as fresh; in-place append into spare capacity cannot be excluded
+//@   requires et_known(tagof(e))
+//@ func crypto/rfc3961.stretch56Bits(b) (d)
+//@   pure
+//@   trusted_frame returned slices are not tracked as fresh; in-place append into spare capacity cannot be excluded
+//@   requires len(b) == 7
+//@   ensures len(d) == 8
+//@ func crypto/rfc3961.fixWeakKey(b) (r)
+//@   requires len(b) == 8
+//@   modifies elems(b)
+//@   ensures r == b
+//@ func crypto/rfc3961.weak(b) (r)
+//@   pure
+//@   trusted_frame returned slices are not tracked as fresh; in-place append into spare capacity cannot be excluded
+//@ func crypto/rfc3961.Nfold(m, n) (r)
+//@   trusted nonlinear (lcm/gcd) index arithmetic is outside what the solvers decide; bounded stand-in in C08
+//@   pure
+//@   trusted_frame returned slices are not tracked as fresh; in-place append into spare capacity cannot be excluded
+//@   requires len(m) > 0 && n > 0 && n % 8 == 0
+//@   ensures len(r) == n / 8
+//@ func crypto/rfc3961.rotateRight(b, step) (r)
+//@   trusted n-fold helper: bit-index arithmetic (division/modulo by symbolic lengths); covered by the bounded n-fold stand-in in C08
+//@   pure
+//@   ensures len(r) == len(b)
+//@ func crypto/rfc3961.onesComplementAddition(n1, n2) (r)
+//@   trusted n-fold helper: recursive carry propagation; covered by the bounded n-fold stand-in in C08
+//@   pure
+//@   ensures len(r) == len(n1)
+//@ func crypto/rfc3961.lcm(x, y) (r)
+//@   trusted n-fold helper (nonlinear); covered by the bounded n-fold stand-in in C08
+//@   pure
+//@ func crypto/rfc3961.gcd(x, y) (r)
+//@   trusted n-fold helper (nonlinear); covered by the bounded n-fold stand-in in C08
+//@   pure
